@@ -1021,6 +1021,48 @@ def d7_equality_only(chk: Check) -> None:
         raise AnalysisError("equality tests on document values not found")
 
 
+def d7b_identity_only_for_singletons(chk: Check) -> None:
+    """`is` / `is not` compares object identity.  In the comparers that is
+    right against None, a private sentinel (`object()`) and enum members;
+    two *values* read from the documents (tag text, scalars) are distinct
+    objects even when equal -- the same tag loaded twice is two strings --
+    so comparing them by identity reports equal documents as different."""
+    from sa.coords import reaching_def
+    prog = chk.prog
+    chk.rule("C06-D7b", "identity comparisons in differ.py have None, a "
+             "sentinel object or an enum member on one side", floor=8)
+    enums = {c.name for c in prog.classes.values()
+             if any("Enum" in b for b in c.base_exprs)}
+    for fi in prog.funcs_in(DIFFER):
+        for c in walk_local(fi.node):
+            if not (isinstance(c, ast.Compare) and len(c.ops) == 1 and
+                    isinstance(c.ops[0], (ast.Is, ast.IsNot))):
+                continue
+            sides = [c.left, c.comparators[0]]
+
+            def singleton(e: ast.AST) -> bool:
+                if isinstance(e, ast.Constant) and e.value in (None, True,
+                                                               False):
+                    return True
+                if isinstance(e, ast.Attribute) and \
+                        src(e.value).split(".")[-1] in enums:
+                    return True
+                if isinstance(e, ast.Name):
+                    d = reaching_def(e.id, c)
+                    if d is not None and src(d) == "object()":
+                        return True
+                return False
+            text = "{}: `{}`".format(fi.short, src(c)[:50])
+            if any(singleton(x) for x in sides):
+                chk.ok("C06-D7b", fi, c, text, "against a singleton", False)
+            else:
+                chk.fail("C06-D7b", fi, c, text,
+                         "two values are compared by identity: equal values "
+                         "loaded separately (the same tag in both documents) "
+                         "are different objects, so identical documents are "
+                         "reported as different")
+
+
 # ---------------------------------------------------------------- D1d -----
 def d1d_every_pair_reported(chk: Check) -> None:
     """Every element of either side is accounted for: each iteration of a
@@ -1158,6 +1200,7 @@ def run(chk: Check) -> None:
     d1c_positions_carried(chk)
     d1d_every_pair_reported(chk)
     d7_equality_only(chk)
+    d7b_identity_only_for_singletons(chk)
     from rules.shared import shared_state_rule
     shared_state_rule(chk, "C06-D8", ("yamlpath/differ/differ.py",
                                   "yamlpath/differ/differconfig.py",
